@@ -1135,6 +1135,9 @@ func (it *Interp) call(call *ast.CallExpr) Value {
 					if it.cfg.IntSyms[t.String()] {
 						return t
 					}
+					if cv, isC := t.IsConst(); isC && cv.IsInt() {
+						return t // int(3.0) = 3
+					}
 					return sym.Fn("trunc", t)
 				}
 			}
@@ -1310,6 +1313,26 @@ func (it *Interp) callFunc(fn *types.Func, call *ast.CallExpr) Value {
 	}
 	if fn.Pkg() != nil && fn.Pkg().Path() == "github.com/pbenner/autodiff" && (fn.Name() == "NullDenseVector" || fn.Name() == "NullVector") && len(call.Args) == 2 {
 		return &LocalVec{Len: it.evalTerm(call.Args[1]), Cells: map[string]*Loc{}}
+	}
+	if fn.Pkg() != nil && fn.Pkg().Path() == "github.com/pbenner/autodiff" && strings.HasPrefix(fn.Name(), "NewDense") && strings.HasSuffix(fn.Name(), "Vector") && len(call.Args) == 1 {
+		// NewDenseFloat64Vector(values): a vector over the given numbers
+		if sl, ok := it.eval(call.Args[0]).(*SliceVal); ok {
+			if n, ok := constIndex(sl.Len); ok && n <= 64 {
+				v := &LocalVec{Len: sl.Len, Cells: map[string]*Loc{}}
+				for i := 0; i < n; i++ {
+					k := sym.Int(int64(i)).String()
+					t, has := sl.Cells[k]
+					if !has {
+						if !sl.Zero {
+							it.undecided(call.Pos(), "vector from a slice with an unknown cell")
+						}
+						t = sym.Zero()
+					}
+					v.Cells[k] = it.newLoc("cell", t)
+				}
+				return v
+			}
+		}
 	}
 	if fn.Pkg() != nil && fn.Pkg().Path() == "github.com/pbenner/autodiff" && (fn.Name() == "NullDenseMatrix" || fn.Name() == "NullMatrix") && len(call.Args) == 3 {
 		r, ok1 := constIndex(it.evalTerm(call.Args[1]))
